@@ -104,6 +104,13 @@ impl Graph {
         }
     }
 
+    /// The front matter recorded for `from` becomes the front matter of `to`.
+    pub fn move_metadata(&mut self, from: &Key, to: &Key) {
+        if let Some(meta) = self.metadata.remove(from) {
+            self.metadata.insert(to.clone(), meta);
+        }
+    }
+
     pub fn new_with_options(markdown_options: MarkdownOptions) -> Graph {
         Graph {
             markdown_options,
